@@ -180,7 +180,6 @@ var ruleFieldAnchors = map[string][]fieldAnchor{
 	"ruleRegistry":         cat(fa(pkgModels, "SessionStore", "sessions", "ids", "mutex"), fa(pkgModels, "Session", "participants", "entities", "moduleStates", "frameHandlers", "entityComponents", "participantIDs", "entityIDs")),
 	"ruleFramePair":        cat(fa(pkgModels, "Session", "closeFrameChan", "frameHandlers", "frameHandlerIDs", "frameMutex"), fa(pkgWS, "RealtimeHandler", "stopFrameHandling")),
 	"ruleFunnelOnce":       fa(pkgWS, "handler", "disconnectChan"),
-	"ruleGaugePair":        fa(pkgWS, "handlerWithMetrics", "appKey", "publicEndpoint"),
 	"ruleMainLineBlocking": cat(fa(pkgWS, "handler", "sendChan"), fa(pkgModels, "Session", "closeFrameChan")),
 	"ruleRelaySync":        fa(pkgWS, "handler", "sendChan", "sender"),
 	"ruleAtomicity":        fa(pkgModels, "SessionStore", "sessions"),
